@@ -74,7 +74,7 @@ Definition read_int (buf : bytes) (nbytes : nat) (signed bigendian : bool) (off 
     Some (if signed && (m / 2 <=? v) then v - m else v).
 
 Definition nth_match (l : list (Z * Z)) (i : Z) : option (Z * Z) :=
-  if i <? 1 then None else nth_error l (Z.to_nat (i - 1)).
+  if (i <? 1) || (Z.of_nat (length l) <? i) then None else nth_error l (Z.to_nat (i - 1)).
 
 Fixpoint eval_i (en : env) (e : iexpr) : option Z :=
   match e with
